@@ -45,6 +45,12 @@ func init() {
 		}}
 }
 
+func init() {
+	families["C07"] = &rt.Family{Prop: "C07", Module: "MC_C07", PackSize: 8,
+		Rule: "units = nesting depth 1..3 x per-level limit option (9 options incl. maxItems 0; 4 at depth 3 in the quick tier) x element kind (integer | object with required key) x 6 positions; documents = uniform nested arrays for every vector of per-level lengths 0..3, ragged arrays, one with an invalid element, absent, null. distinct_nontrivial = distinct (unit, document) pairs with a definite reference verdict",
+		ExtraCfg: func(tier string) string { return "  Tier = \"" + tier + "\"\n" }}
+}
+
 func hasMult(u *rt.Unit) bool {
 	b := fmt.Sprint(u.Raw["schema"], u.Raw["defs"])
 	return containsStr(b, "multipleOf")
